@@ -36,6 +36,8 @@ structure InvP (pend : List Nat) (s : St) : Prop where
   sidU : SidU s.tasks
   uidU : ∀ a ∈ s.tasks, ∀ b ∈ s.tasks, a.inTable = true → b.inTable = true → a.uid = b.uid → a = b
   seqU : ∀ a ∈ s.tasks, ∀ b ∈ s.tasks, a.seq = b.seq → a = b
+  /-- every record has a usable UID (`_inject_task1` turns down `!t->oid`) -/
+  uidNe : ∀ t ∈ s.tasks, t.uid ≠ ""
   tinv : ∀ t ∈ s.tasks, TInvP (pend.contains t.sid) s t
   kids : ∀ c ∈ s.children, c.live = true → ∃ t ∈ s.tasks, t.sid = c.sid
   count : ∀ t ∈ s.tasks, t.nsim = liveCount s.children t.sid
@@ -68,6 +70,7 @@ theorem Inv_init (m : Nat) : Inv { me := m } where
   sidU := by simp [SidU]
   uidU := by intro a h; cases h
   seqU := by intro a h; cases h
+  uidNe := by intro a h; cases h
   tinv := by intro a h; cases h
   kids := by intro a h; cases h
   count := by intro a h; cases h
@@ -80,6 +83,7 @@ theorem InvP_frame {pend : List Nat} {s s' : St} (h : InvP pend s) (ht : s'.task
   sidU := by rw [ht]; exact h.sidU
   uidU := by rw [ht]; exact h.uidU
   seqU := by rw [ht]; exact h.seqU
+  uidNe := by rw [ht]; exact h.uidNe
   tinv := by rw [ht]; intro t hm; exact (h.tinv t hm).mono h1 h2 h3 h4
   kids := by rw [ht, hc]; exact h.kids
   count := by rw [ht, hc]; exact h.count
@@ -210,6 +214,13 @@ theorem InvP_of {s s' : St} {pend pend' : List Nat} (h : InvP pend s) (g : DTask
       (fun x hx y hy => ⟨(hg x hx y hy).2.1, (hg x hx y hy).2.2.1⟩)
       (fun a ha b hb pa pb hk => h.uidU a ha b hb pa pb hk)
   seqU := hseq
+  uidNe := by
+    rw [htasks]
+    intro y hy
+    rw [List.mem_filterMap] at hy
+    obtain ⟨x, hx, hgx⟩ := hy
+    rw [(hg x hx y hgx).2.1]
+    exact h.uidNe x hx
   tinv := by
     rw [htasks]
     intro y hy
@@ -912,8 +923,8 @@ theorem resched_keeps (t : DTask) (now : Nat) :
 theorem Inv_append {s s' : St} {t : DTask} (h : Inv s) (ht : s'.tasks = s.tasks ++ [t])
     (hc : s'.children = s.children) (h1 : s'.nextSid = s.nextSid + 1) (h2 : s.perseq ≤ s'.perseq)
     (h3 : s'.users = s.users) (h4 : s'.now = s.now) (hsid : t.sid = s.nextSid) (hseq : t.seq = s.perseq)
-    (hti : TInvP false s' t) (hn : t.nsim = 0) (hu : ∀ x ∈ s.tasks, x.inTable = true → x.uid ≠ t.uid) :
-    Inv s' where
+    (hti : TInvP false s' t) (hn : t.nsim = 0) (hu : ∀ x ∈ s.tasks, x.inTable = true → x.uid ≠ t.uid)
+    (hne : t.uid ≠ "") : Inv s' where
   sidU := by
     rw [ht]
     unfold SidU
@@ -943,6 +954,13 @@ theorem Inv_append {s s' : St} {t : DTask} (h : Inv s) (ht : s'.tasks = s.tasks 
     · have := (h.tinv a ha).seq_lt; omega
     · have := (h.tinv b hb).seq_lt; omega
     · rfl
+  uidNe := by
+    rw [ht]
+    intro x hx
+    rw [List.mem_append, List.mem_singleton] at hx
+    rcases hx with hx | rfl
+    · exact h.uidNe x hx
+    · exact hne
   tinv := by
     rw [ht]
     intro x hx
@@ -1018,7 +1036,7 @@ def fresh (sid : Nat) (uid : String) (e ms dur : Nat) (occ : List Nat) : DTask :
 
 /-- `_inject_task1` once the owner `e` is settled -/
 def injectAs (s : St) (uid : String) (maxSimul dur : Nat) (occ : List Nat) (isTask : Bool) (e : Nat) : St × Bool :=
-  if !isTask then (s, false)
+  if !isTask || uid == "" then (s, false)
   else match s.find uid with
     | some old =>
       if old.owner ≠ e then (s, false)
@@ -1042,7 +1060,7 @@ theorem inject_core (s : St) (uid : String) (maxSimul dur : Nat) (occ : List Nat
     else
       let oc := if oc = notAUid then uc else oc
       let uc := if uc = notAUid then oc else uc
-      if !isTask then (s, false)
+      if !isTask || uid == "" then (s, false)
       else
         match s.find uid with
         | some old =>
@@ -1101,6 +1119,28 @@ theorem inject_eq (s : St) (uid : String) (owner : Option Nat) (maxSimul dur : N
     cases owner with
     | none => exact inject_core s uid maxSimul dur occ isTask notAUid (complUid s u)
     | some o => exact inject_core s uid maxSimul dur occ isTask (complUid s o) (complUid s u)
+
+/-- a task without a usable UID (`!t->oid`) is turned down whatever the owner -/
+theorem injectAs_empty (s : St) (ms dur : Nat) (occ : List Nat) (isTask : Bool) (e : Nat) :
+    injectAs s "" ms dur occ isTask e = (s, false) := by
+  unfold injectAs
+  rw [if_pos (by simp)]
+
+theorem inject_empty (s : St) (owner : Option Nat) (ms dur : Nat) (occ : List Nat) (isTask : Bool) (u : Nat) :
+    inject s "" owner ms dur occ isTask u = (s, false) := by
+  rw [inject_eq]
+  unfold injectSpec
+  cases effOwner s owner u with
+  | none => rfl
+  | some e => exact injectAs_empty s ms dur occ isTask e
+
+theorem injectAs_ok_ne {s : St} {uid : String} {ms dur : Nat} {occ : List Nat} {isTask : Bool} {e : Nat}
+    (h : (injectAs s uid ms dur occ isTask e).2 = true) : uid ≠ "" := by
+  intro hu; subst hu; rw [injectAs_empty] at h; cases h
+
+theorem inject_ok_ne {s : St} {uid : String} {owner : Option Nat} {ms dur : Nat} {occ : List Nat} {isTask : Bool}
+    {u : Nat} (h : (inject s uid owner ms dur occ isTask u).2 = true) : uid ≠ "" := by
+  intro hu; subst hu; rw [inject_empty] at h; cases h
 
 theorem complUid_ne {s : St} {x : Nat} (h : complUid s x ≠ notAUid) :
     complUid s x = x ∧ x ≠ notAUid ∧ s.users.contains x = true := by
@@ -1167,16 +1207,20 @@ theorem Inv_injectAs {s : St} (h : Inv s) (uid : String) (ms dur : Nat) (occ : L
   unfold injectAs
   split
   · exact h
+  rename_i hcond
+  have hne : uid ≠ "" := by
+    intro c; apply hcond; simp [c]
   cases hf : s.find uid with
   | none =>
     simp only []
     have hk := loaded_keeps s (fresh s.nextSid uid e ms dur occ)
     refine Inv_append (t := loaded s (fresh s.nextSid uid e ms dur occ)) h rfl rfl rfl (Nat.le_succ _) rfl rfl
-      hk.1 hk.2.2.2.2.2.2 ?_ hk.2.2.2.1 ?_
+      hk.1 hk.2.2.2.2.2.2 ?_ hk.2.2.2.1 ?_ ?_
     · exact TInv_start rfl rfl rfl rfl hs he (Nat.lt_succ_self _) (Nat.lt_succ_self _) rfl
     · intro x hx hxi
       rw [hk.2.1]
       exact find_eq_none_iff.mp hf x hx hxi
+    · rw [hk.2.1]; exact hne
   | some old =>
     obtain ⟨hom, hoi, hou⟩ := find_some hf
     simp only []
@@ -1438,6 +1482,7 @@ theorem Inv_empty (s : St) (ht : s.tasks = []) (hc : s.children = []) : Inv s wh
   sidU := by rw [ht]; simp [SidU]
   uidU := by rw [ht]; intro a h; cases h
   seqU := by rw [ht]; intro a h; cases h
+  uidNe := by rw [ht]; intro a h; cases h
   tinv := by rw [ht]; intro a h; cases h
   kids := by rw [hc]; intro a h; cases h
   count := by rw [ht]; intro a h; cases h
